@@ -3,6 +3,7 @@ package otto
 import (
 	"fmt"
 	"reflect"
+	"sort"
 	"strconv"
 )
 
@@ -104,9 +105,16 @@ func goMapGetOwnProperty(obj *object, name string) *property {
 
 func goMapEnumerate(obj *object, all bool, each func(string) bool) {
 	goObj := obj.value.(*goMapObject)
+	// Go's map order is random: enumerate in the order of the names, so that
+	// for-in and Object.keys agree with each other and from run to run.
 	keys := goObj.value.MapKeys()
-	for _, key := range keys {
-		if !each(toValue(key).String()) {
+	names := make([]string, len(keys))
+	for i, key := range keys {
+		names[i] = toValue(key).String()
+	}
+	sort.Strings(names)
+	for _, name := range names {
+		if !each(name) {
 			return
 		}
 	}
